@@ -50,3 +50,26 @@ func init() {
 		NotDecided: []string{"that go/printer renders what applyDecorations emits (C04 covers the emission itself)"},
 	})
 }
+
+func fr(name string) string { return pkgDecorator + ".(*FileRestorer)." + name }
+
+func init() {
+	register(&Property{
+		ID:       "C05",
+		Title:    "Before/After spacing renders by the documented non-additive rule",
+		Packages: []string{pkgDecorator},
+		Build: func(p *Program, tier string) ([]*Unit, []UnitError) {
+			return buildFuncUnits(p, []string{
+				fr("applySpace"), fr("applyDecorations"),
+				fr("verifLemmaSiblingSpacing"), fr("verifLemmaBadNodeAfter"), fr("verifLemmaCommentThenSpace"),
+				fr("verifLemmaAfterOpeningToken"), fr("verifLemmaBeforeClosingToken"),
+			}, nil)
+		},
+		Assumptions: []string{
+			"go/format prints a line difference >= 2 between consecutive items as exactly one blank line and 1 as a line break (DESIGN.md 5, assumption 8): the rule is proved on the restorer's line table, not on printed bytes",
+			"the lemma harnesses (verif_lemmas.go, build tag verif) are call sequences verified against the callees' contracts only",
+			"one carve-out taken from the code and stated in the contract: the extra byte after a file's Start decorations (issue 69)",
+		},
+		NotDecided: []string{"that NewLine spacing on expression-level nodes makes go/printer split argument lists one element per line (printer behaviour)"},
+	})
+}
